@@ -37,6 +37,29 @@ func samVarGen(r *RNG, id string, maxIns int, window bool) *Case {
 			}
 		}
 	}
+	// a read that is the reference itself (no mismatch, no indel), somewhere after the first read: its row is empty
+	if len(sc.recs) > 0 && r.Chance(1, 4) {
+		same := samRec{name: "same_as_ref", flag: 0, pos: 1, cigar: fmt.Sprintf("%dM", L), seq: strings.ToUpper(sc.ref)}
+		// between two query blocks (never inside one, skipped records included), or after the last record
+		skipped := func(x samRec) bool { return x.flag&(4|256) != 0 }
+		cands := []int{len(sc.recs)}
+		for i := 1; i < len(sc.recs); i++ {
+			if !skipped(sc.recs[i]) && !skipped(sc.recs[i-1]) && sc.recs[i].name != sc.recs[i-1].name {
+				later := false
+				for _, y := range sc.recs[i:] {
+					if y.name == sc.recs[i-1].name {
+						later = true
+					}
+				}
+				if !later {
+					cands = append(cands, i)
+				}
+			}
+		}
+		at := cands[r.Intn(len(cands))]
+		sc.recs = append(sc.recs[:at:at], append([]samRec{same}, sc.recs[at:]...)...)
+		sc.tags["read-identical-to-reference"] = true
+	}
 	// drop records that align no base: toPairAlign/variants treat them like any other, keep a few
 	sc.fill(c)
 	var genes []gene
